@@ -57,7 +57,8 @@ else:
 XPATH_NSDICT = dict(xop=NS_XOP)
 
 
-def _join_attachment(ns_soap_env, href_id, envelope, payload, prefix=True):
+def _join_attachment(ns_soap_env, href_id, envelope, payload, prefix=True,
+                                                                   parser=None):
     """Places the data from an attachment back into a SOAP message, replacing
     its xop:Include element or href.
 
@@ -69,10 +70,13 @@ def _join_attachment(ns_soap_env, href_id, envelope, payload, prefix=True):
                       content-location.  It prefixes a "cid:" to the href value.
     :param  envelope: soap envelope string to be operated on
     :param  payload:  attachment data
+    :param  parser:   the ``lxml.etree.XMLParser`` instance to parse the
+                      envelope with. Pass the one built from the protocol's
+                      ``parser_kwargs`` when the envelope comes from a request.
     """
 
     # grab the XML element of the message in the SOAP body
-    soaptree = etree.fromstring(envelope)
+    soaptree = etree.fromstring(envelope, parser=parser)
     soapbody = soaptree.find("{%s}Body" % ns_soap_env)
 
     if soapbody is None:
@@ -101,7 +105,7 @@ def _join_attachment(ns_soap_env, href_id, envelope, payload, prefix=True):
     return etree.tostring(soaptree), num
 
 
-def collapse_swa(ctx, content_type, ns_soap_env):
+def collapse_swa(ctx, content_type, ns_soap_env, parser=None):
     """
     Translates an SwA multipart/related message into an application/soap+xml
     message.
@@ -117,6 +121,8 @@ def collapse_swa(ctx, content_type, ns_soap_env):
     :param  content_type: value of the Content-Type header field, parsed by
                           cgi.parse_header() function
     :param  ctx:          request context
+    :param  parser:       the ``lxml.etree.XMLParser`` instance to parse the
+                          soap envelope with
     """
 
     envelope = ctx.in_string
@@ -180,13 +186,13 @@ def collapse_swa(ctx, content_type, ns_soap_env):
         # Check for Content-ID and make replacement
         if cid:
             soapmsg, numreplaces = _join_attachment(
-                                             ns_soap_env, cid, soapmsg, payload)
+                              ns_soap_env, cid, soapmsg, payload, parser=parser)
 
         # Check for Content-Location and make replacement
         if cloc and not cid and not numreplaces:
             soapmsg, numreplaces = _join_attachment(
                                             ns_soap_env, cloc, soapmsg, payload,
-                                                                          False)
+                                                           False, parser=parser)
 
     if soapmsg is None:
         raise ValidationError(None, "Invalid MtoM request")
